@@ -216,7 +216,7 @@ Section MidSound.
       0 <= consumed <= srcSize /\ (lim <> FillOutput -> consumed = srcSize) /\
       spec_decode (seg vrd lo s0) out = Some (seg vrd s0 (s0 + consumed)) /\
       (lim <> FillOutput -> strict_valid (seg vrd lo s0) out = Some (seg vrd s0 (s0 + consumed))) /\
-      ret = Z.of_nat (length out) /\ tab_lt h4 (iend + 1) /\ tab_lt h8 (iend + 1)
+      ret = Z.of_nat (length out) /\ tab_lt h4 iend /\ tab_lt h8 iend
     | _ => True
     end.
 
@@ -258,7 +258,7 @@ Section MidSound.
   Lemma last_literals_sound s oend :
     out_ok (m_rout s) (m_anchor s) -> s0 <= m_anchor s <= iend ->
     m_op s = Z.of_nat (length (m_rout s)) ->
-    tab_lt (m_h4 s) (iend + 1) -> tab_lt (m_h8 s) (iend + 1) ->
+    tab_lt (m_h4 s) iend -> tab_lt (m_h8 s) iend ->
     RSpec (last_literals vrd lim s0 srcSize s oend).
   Proof.
     intros (ss & Hr & Hv & He & Hend) Ha Hop T4 T8. pose proof limits as (L1 & L2 & L3).
@@ -317,7 +317,7 @@ Section MidSound.
     out_ok (m_rout s) (m_anchor s) -> s0 <= m_anchor s <= m_ip s ->
     m_op s = Z.of_nat (length (m_rout s)) ->
     match_ok vrd lo (m_ip s) dist ml -> m_ip s + ml <= matchlimit -> m_ip s <= mflimit ->
-    tab_lt (m_h4 s) (iend + 1) -> tab_lt (m_h8 s) (iend + 1) ->
+    tab_lt (m_h4 s) iend -> tab_lt (m_h8 s) iend ->
     RSpec (dest_overflow vrd lim s0 srcSize s ml dist oend).
   Proof.
     intros Ho Ha Hop Hm Hml Hipm T4 T8. pose proof limits as (L1 & L2 & L3).
@@ -353,7 +353,7 @@ Section MidSound.
     s0 <= m_anchor s <= m_ip s /\ m_anchor s <= iend /\ out_ok (m_rout s) (m_anchor s) /\
     m_op s = Z.of_nat (length (m_rout s)) /\
     tab_lt (m_h4 s) (m_ip s) /\ tab_lt (m_h8 s) (m_ip s) /\
-    tab_lt (m_h4 s) (iend + 1) /\ tab_lt (m_h8 s) (iend + 1).
+    tab_lt (m_h4 s) iend /\ tab_lt (m_h8 s) iend.
 
   Lemma encode_step_sound s f h4 h8 oend :
     MInv s -> m_ip s <= mflimit -> found_ok (m_ip s) f ->
